@@ -36,7 +36,9 @@ import (
 
 // Shape describes an error value by construction.
 type Shape struct {
-	Kind      string `json:"kind"` // plain | service | wrap (fmt.Errorf %w) | typewrap (type with Unwrap) | join (errors.Join)
+	Kind      string `json:"kind"` // plain | service | wrap (fmt.Errorf %w) | typewrap (type with Unwrap) | join (errors.Join) | status (gRPC status error)
+	Code      int      `json:"code,omitempty"`    // status
+	Details   []Detail `json:"details,omitempty"` // status
 	Msg       string `json:"msg,omitempty"`
 	Name      string `json:"name,omitempty"`
 	ID        string `json:"id,omitempty"`
@@ -70,6 +72,8 @@ func (s *Shape) build() error {
 	switch s.Kind {
 	case "plain":
 		return errors.New(s.Msg)
+	case "status":
+		return buildStatus(s)
 	case "service":
 		if s.HasCause {
 			se := goa.NewServiceError(errors.New(s.Msg), s.Name, s.Timeout, s.Temporary, s.Fault)
@@ -111,6 +115,8 @@ func (s *Shape) text() string {
 		return s.Wrap + ": " + s.Inner.text()
 	case "join":
 		return s.L.text() + "\n" + s.R.text()
+	case "status":
+		return fmt.Sprintf("rpc error: code = %s desc = %s", codes.Code(s.Code), s.Msg)
 	}
 	return s.Msg
 }
@@ -372,6 +378,12 @@ func (s *Shape) coq() string {
 	switch s.Kind {
 	case "plain":
 		return "(EPlain " + vh.CoqString(s.Msg) + ")"
+	case "status":
+		ds := make([]string, len(s.Details))
+		for i, d := range s.Details {
+			ds[i] = d.coq()
+		}
+		return fmt.Sprintf("(EStatus %d %s %s)", s.Code, vh.CoqString(s.Msg), vh.CoqList(ds))
 	case "service":
 		return "(EServ " + coqCore(core{Name: s.Name, ID: s.ID, Msg: s.Msg, Timeout: s.Timeout, Temporary: s.Temporary, Fault: s.Fault}) + ")"
 	case "wrap", "typewrap":
